@@ -83,6 +83,15 @@ def Prim.kind {α : Type} : Prim α → Kind
   | .number _ => .number | .integer _ => .integer | .pint _ => .pint
   | .boolean _ => .boolean | .string _ => .string | .other k => k
 
+/-- the kinds of the primitives that `Prim.other` stands for -/
+def Kind.isOther : Kind → Bool
+  | .iter _ | .graph | .edge | .node | .tuple _ | .undefined => true
+  | _ => false
+/-- `other k` is used for non-scalar primitives only (no value has kind `Any`) -/
+def Prim.proper {α : Type} : Prim α → Bool
+  | .other k => k.isOther
+  | _ => true
+
 /-- the value fits its Rust representation -/
 def Prim.wf {α : Type} : Prim α → Bool
   | .integer i => inI64 i
